@@ -244,7 +244,7 @@ func (ex *Exec) store(st *State, lp *LPath, v string) {
 			nv = "(str.++ (str.substr " + base + " 0 " + lp.Idx + ") (str.from_code " + v + ") (str.substr " + base + " (+ " + lp.Idx + " 1) (str.len " + base + ")))"
 		} else {
 			el := lp.Base.Sort.Elem
-			nv = sqApp(sqApp(sqExt(base, "0", lp.Idx, el), sqUnit(v, el), el), sqExt(base, "(+ "+lp.Idx+" 1)", "(- "+sqLen(base, el)+" (+ "+lp.Idx+" 1))", el), el)
+			nv = sqUpd(base, lp.Idx, v, el)
 		}
 		ex.store(st, lp.Base, nv)
 	case "sub":
